@@ -350,3 +350,128 @@ theorem C07_walk_package (pol : Policy) (w : World) (i : Nat) (n : String) (file
     | some v1 => simp [acceptFiles_eq]
 
 end Pgs.AST
+
+/-! ### the path-based Φ specification agrees with the walk (complete traversal of a file) -/
+namespace Pgs.AST
+
+/-- with the always-continuing visitor the fold of `specStep` records every node with visitor 0 -/
+theorem specFold_all (w : World) (start : Ref) : ∀ (l : List Ref) (st : SpecSt),
+    st.err = none → st.pruned = none → (∀ e ∈ st.vstack, e.2 = 0) →
+    (l.foldl (specStep w [] false start) st).trace = (l.map (·, 0)).reverse ++ st.trace ∧
+    (l.foldl (specStep w [] false start) st).err = none := by
+  intro l
+  induction l with
+  | nil => intro st h1 _ _; exact ⟨by simp, h1⟩
+  | cons n l ih =>
+    intro st h1 h2 h3
+    simp only [List.foldl_cons]
+    obtain ⟨d, hd⟩ : ∃ d, d = st.vstack.dropWhile (fun (x : Ref × Nat) => !contains w x.1 n) := ⟨_, rfl⟩
+    have hv : ∀ e ∈ d, e.2 = 0 := fun e he => h3 e ((List.dropWhile_sublist _).subset (hd ▸ he))
+    have hstep : specStep w [] false start st n =
+        { trace := (n, 0) :: st.trace, vstack := (n, 0) :: d, pruned := none, err := none } := by
+      simp only [specStep, h1, h2, act_nil, Option.isSome_none, Bool.false_eq_true, if_false, Bool.false_and, ← hd]
+      cases hdd : d with
+      | nil => rfl
+      | cons a t =>
+        obtain ⟨r, v⟩ := a
+        have : v = 0 := hv (r, v) (by rw [hdd]; exact List.mem_cons_self ..)
+        subst this
+        rfl
+    rw [hstep]
+    obtain ⟨a, b⟩ := ih ⟨(n, 0) :: st.trace, (n, 0) :: d, none, none⟩ rfl rfl (by
+      intro e he
+      rcases List.mem_cons.mp he with rfl | he
+      · rfl
+      · exact hv e he)
+    refine ⟨?_, b⟩
+    rw [a]; simp
+
+theorem childRefs_file (fi : Nat) (p : List Nat) (tag n : Nat) : ∀ r ∈ childRefs fi p tag n, r.file = fi := by
+  intro r hr
+  simp only [childRefs, List.mem_map, List.mem_range] at hr
+  obtain ⟨j, _, rfl⟩ := hr
+  rfl
+
+theorem msgsOrder_file (fi : Nat) : ∀ (ms : Msgs) (p : List Nat) (tag i : Nat), ∀ r ∈ msgsOrder fi p tag i ms, r.file = fi := by
+  intro ms
+  induction ms with
+  | nil => intro p tag i r hr; simp [msgsOrder] at hr
+  | cons h nested rest ih1 ih2 =>
+    intro p tag i r hr
+    simp only [msgsOrder, List.mem_append] at hr
+    rcases hr with hr | hr
+    · by_cases hm : h.mapEntry = true
+      · simp [hm] at hr
+      · have hm' : h.mapEntry = false := by simpa using hm
+        simp only [hm', Bool.false_eq_true, if_false, List.mem_cons, List.mem_append, List.mem_flatten, List.mem_map] at hr
+        rcases hr with ((((rfl | ⟨l, ⟨q, _, rfl⟩, hr⟩) | hr) | hr) | hr) | hr
+        · rfl
+        · simp only [enumOrder, List.mem_cons] at hr
+          rcases hr with rfl | hr
+          · rfl
+          · exact childRefs_file _ _ _ _ r hr
+        · exact ih1 _ _ _ r hr
+        · exact childRefs_file _ _ _ _ r hr
+        · exact childRefs_file _ _ _ _ r hr
+        · exact childRefs_file _ _ _ _ r hr
+    · exact ih2 _ _ _ r hr
+
+/-- every entity in a file's declared order is the file or is contained in it -/
+theorem fileOrder_contained (w : World) (fi : Nat) (f : FileD) (hfi : fi < 900000) :
+    ∀ r ∈ fileOrder fi f, (r == (⟨fi, []⟩ : Ref) || contains w ⟨fi, []⟩ r) = true := by
+  intro r hr
+  rw [← C07_pre_is_fileOrder] at hr
+  simp only [fileF, Forest.pre, List.append_nil, List.mem_cons] at hr
+  rcases hr with rfl | hr
+  · simp
+  · -- below the file: same file index, non-empty path
+    have hfile : r.file = fi ∧ r.path ≠ [] := by
+      simp only [fileKidsF, Forest.pre_append, leavesF_pre, List.mem_append] at hr
+      have hpath : ∀ {a i : Nat} {L : List Ref}, Under [] a i L → r ∈ L → r.path ≠ [] := by
+        intro a i L hu hm hnil
+        obtain ⟨j, t, _, p⟩ := hu r hm
+        rw [hnil] at p; simp at p
+      rcases hr with hr | hr | hr | hr
+      · refine ⟨?_, hpath (enumsF_under fi [] 5 f.enums 0) hr⟩
+        rw [enumsF_pre] at hr
+        simp only [List.mem_flatten, List.mem_map] at hr
+        obtain ⟨l, ⟨q, _, rfl⟩, hr⟩ := hr
+        simp only [enumOrder, List.mem_cons] at hr
+        rcases hr with rfl | hr
+        · rfl
+        · exact childRefs_file _ _ _ _ r hr
+      · refine ⟨?_, hpath (msgsF_under fi f.msgs [] 4 0) hr⟩
+        rw [msgsF_pre] at hr
+        exact msgsOrder_file fi f.msgs [] 4 0 r hr
+      · refine ⟨?_, hpath (servicesF_under fi f.services 0) hr⟩
+        rw [servicesF_pre] at hr
+        simp only [List.mem_flatten, List.mem_map] at hr
+        obtain ⟨l, ⟨q, _, rfl⟩, hr⟩ := hr
+        rcases List.mem_cons.mp hr with rfl | hr
+        · rfl
+        · exact childRefs_file _ _ _ _ r hr
+      · exact ⟨childRefs_file _ _ _ _ r hr, hpath (childRefs_under fi [] 7 f.exts.length) hr⟩
+    have hge : ¬ (fi ≥ 900000) := by omega
+    have hlen : 0 < r.path.length := by
+      cases hp : r.path with
+      | nil => exact absurd hp hfile.2
+      | cons a t => simp
+    simp [contains, hge, hfile.1, hlen]
+
+/-- **C07 (Φ's specification = the walk, complete traversal)**: for every world and every file, the
+    path-based specification the Φ checker folds over (`specWalk`) and the model of the real walk
+    give the same observation for the always-continuing visitor. -/
+theorem C07_spec_agrees_complete (w : World) (fi : Nat) (f : FileD) (hf : w.files[fi]? = some f) (hfi : fi < 900000) :
+    specWalk [] w ⟨fi, []⟩ false = walkModel [] w ⟨fi, []⟩ false := by
+  have hge : ¬ (fi ≥ 900000) := by omega
+  have hpre : preorder w ⟨fi, []⟩ = fileOrder fi f := by
+    simp only [preorder, hge, if_false, hf]
+    apply List.filter_eq_self.mpr
+    exact fileOrder_contained w fi f hfi
+  obtain ⟨a, b⟩ := specFold_all w ⟨fi, []⟩ (fileOrder fi f) ⟨[], [], none, none⟩ rfl rfl (by intro e he; simp at he)
+  have hw := (C07_walk_file [] w fi f hf hfi).1
+  unfold specWalk walkModel
+  rw [hpre, hw, C07_visits_everything]
+  simp only [a, b, List.append_nil, List.reverse_reverse, C07_pre_is_fileOrder, Option.getD_none]
+
+end Pgs.AST
